@@ -165,6 +165,12 @@ Print Assumptions C11_periodic_image_attained.
 Theorem C11_periodic_le_half : forall a b, mt_in_unit a -> mt_in_unit b -> mt_periodic_sq a b <= 1 # 2.
 Proof. exact mt_periodic_le_half. Qed.
 Print Assumptions C11_periodic_le_half.
+(* triangle inequality sqrt z <= sqrt x + sqrt y of the coded periodic metric on the unit cell, squared form *)
+Theorem C11_periodic_triangle : forall a b c, mt_in_unit a -> mt_in_unit b -> mt_in_unit c ->
+  let x := mt_periodic_sq a b in let y := mt_periodic_sq b c in let z := mt_periodic_sq a c in
+  z <= x + y \/ (z - x - y) * (z - x - y) <= 4 * x * y.
+Proof. exact mt_periodic_triangle_sq. Qed.
+Print Assumptions C11_periodic_triangle.
 
 (* ---- clause "always found when the iteration budget is at least the number of edges (the budget the flux solver uses)"
    (astar_budget), BOTH stopping modes, for the loop after fix 475bcae (maxits bounds the number of expanded nodes; popping
